@@ -63,6 +63,9 @@ fn run_real<D: SimData>(sc: &ScEval, out: &mut Outcome) -> Option<Real> {
         }
     };
     d.host_mut().recording = true;
+    // what a host does after a build on BasicGarnishData: the constants are only protected from compaction
+    // (a scripted host may compact inside a callback) by the retained prefix
+    d.retain_now();
     if sc.working_copy {
         match d.working_copy() {
             Some(Ok(copy)) => {
@@ -557,6 +560,15 @@ impl Campaign for C17 {
         }
         if basic && rng.chance(1, 8) {
             script.nth_override.insert(rng.below(6), Answer::Churn(rng.range(1, 30) as u32, Box::new(Answer::Unique)));
+        }
+        if basic && rng.chance(1, 6) {
+            // the host compacts the store inside its deferred-operation / external-apply callback, then answers
+            let then = if rng.chance(1, 2) { Answer::Decline } else { Answer::Unique };
+            if rng.chance(1, 2) {
+                script.defer_default = Some(Answer::Compact(Box::new(then)));
+            } else {
+                script.apply_default = Some(Answer::Compact(Box::new(then)));
+            }
         }
         let host_jumps = if rng.chance(1, 3) { rng.range(1, 16) } else { 0 };
         ScEval { host_jumps, working_copy: !basic && rng.chance(1, 4), basic, src, input, script, max_steps: 3000 }
